@@ -50,10 +50,10 @@ FlagSets(t) ==
     [] t = CONT -> {{"END_HEADERS"}}
     [] OTHER -> {{}}
 
-LenMuts(P) == { x \in {P, P - 1, P + 1, 0, 1, 2, 3, 4, 5, 6, 8, MaxRead, MaxRead + 1, 16777215} : x >= 0 }
+LenMuts(P) == { x \in {P, P - 1, P + 1, 0, 1, 2, 3, 4, 5, 6, 8, 32767, 32768, 65535, 65536, MaxRead - 1, MaxRead, MaxRead + 1, 8388607, 8388608, 16777215} : x >= 0 }
 Pads(t, fl, L) == IF "PADDED" \notin fl THEN {0}
                   ELSE LET room == L - 1 - (IF "PRIORITY" \in fl /\ t = HEADERS THEN 5 ELSE 0) IN
-                       { x \in {0, 1, room - 1, room, room + 1, 255} : x >= 0 /\ x <= 255 }
+                       { x \in {0, 1, room - 1, room, room + 1, 127, 128, 255} : x >= 0 /\ x <= 255 }
 
 (* ------------------------------------------------------------------ single frames with a mutated length field *)
 SingleSet ==
@@ -163,6 +163,99 @@ HpackWalk(rs, k, c, dyn, first) ==
 RECURSIVE SeqLen(_, _)
 SeqLen(rs, k) == IF k = 0 THEN 0 ELSE rs[k].len + SeqLen(rs, k - 1)
 HpackSeqs == { <<r>> : r \in Reps } \cup { <<r1, r2>> : r1 \in Reps, r2 \in Reps }
+
+(* ------------------------------------------------------------------ HPACK integer fields (RFC 7541 5.1) at their type boundaries.
+   Every integer of a header block is a prefix-coded varint that hpack.readVarInt accepts up to 2^63 + 2^n - 2 (nine
+   continuation bytes); the decoder keeps it in a uint64 and compares / converts it:
+     table index      (indexed field 7-bit prefix; literal with incremental indexing 6; without indexing 4; never indexed 4)
+                      valid iff 1 <= i <= 61 + entries of the dynamic table
+     string length    (name / value of a literal, 7-bit prefix, with or without the Huffman flag)
+                      valid iff that many bytes follow (and <= the configured maximum string length)
+     table size update (5-bit prefix)   valid iff <= the allowed maximum (4096)
+   Value classes: the small ones are numbers, the large ones are symbols (TLC integers are 32 bit); all large ones lie
+   above every bound of the model.  The ones with bit 63 set become negative when converted to int (Go int = int64),
+   the ones with bit 31 set when converted to int32, 2^32 and above lose bits when converted to uint32.
+   Defects (TLC must reject each):
+     "SignedIndexCheck"     the index bound is tested after conversion to int
+     "SignedStringLength"   the string length is compared after conversion to int
+     "TruncatedSizeUpdate"  the size update is compared after conversion to uint32 *)
+Classes == <<"zero", "maxvalid", "maxvalid1", "i31m1", "i31", "u32m1", "u32", "p62", "i63m1", "i63", "maxacc", "overflow">>
+ClassSet == { Classes[i] : i \in DOMAIN Classes }
+BigClasses == {"i31m1", "i31", "u32m1", "u32", "p62", "i63m1", "i63", "maxacc"}
+Bit63(c) == c \in {"i63", "maxacc"}                \* negative as int64
+Mod32Small(c) == c = "u32"                         \* 2^32: zero as uint32
+
+Fills == {"empty", "partly", "full"}
+DynLen(fill) == CASE fill = "empty" -> 0 [] fill = "partly" -> 2 [] fill = "full" -> 107   \* entries of 38 bytes in a 4096 byte table
+StaticLen == 61
+AllowedTableSize == 4096
+TrueStrLen == 3
+
+(* field: prefix bits n, pattern of the first byte above the prefix, what the mutated integer is *)
+HF(name, n, base, what) == [name |-> name, n |-> n, base |-> base, what |-> what]
+HpFields == {
+  HF("indexed",        7, 128, "index"),
+  HF("lit-inc-idx",    6, 64,  "index"),
+  HF("lit-noidx-idx",  4, 0,   "index"),
+  HF("lit-never-idx",  4, 16,  "index"),
+  HF("size-update",    5, 32,  "size"),
+  HF("name-len",       7, 0,   "strlen"),
+  HF("value-len",      7, 0,   "strlen"),
+  HF("name-len-huff",  7, 128, "strlen"),
+  HF("value-len-huff", 7, 128, "strlen")
+}
+
+(* the number a small class stands for; -1 for the symbolic ones *)
+SmallVal(f, c, fill) ==
+  LET mv == CASE f.what = "index" -> StaticLen + DynLen(fill) [] f.what = "size" -> AllowedTableSize [] f.what = "strlen" -> TrueStrLen IN
+  CASE c = "zero" -> 0 [] c = "maxvalid" -> mv [] c = "maxvalid1" -> mv + 1 [] OTHER -> -1
+
+HpIntApplicable(f, c) == ~(f.name \in {"name-len-huff", "value-len-huff"} /\ c \in {"zero", "maxvalid"})   \* valid Huffman data is C18's subject
+
+(* what Write + Close of the block must answer (the block ends right behind the field's own data) *)
+HpIntExpect(f, c, fill) ==
+  CASE c = "overflow" -> "error"
+    [] c \in BigClasses -> "error"
+    [] f.what = "index" -> IF c = "maxvalid" THEN "ok" ELSE "error"      \* 0: no entry / for a literal: a new name whose value is missing
+    [] f.what = "size"  -> IF c = "maxvalid1" THEN "error" ELSE "ok"
+    [] f.what = "strlen" -> IF c = "maxvalid1" THEN "error" ELSE "ok"
+
+(* the comparisons as the decoder performs them *)
+HpIntImpl(f, c, fill) ==
+  CASE c = "overflow" -> "error"                                        \* readVarInt: more than nine continuation bytes
+    [] f.what = "index" ->
+         IF c = "zero" THEN "error"
+         ELSE IF c \in BigClasses THEN (IF "SignedIndexCheck" \in Defects /\ Bit63(c) THEN "panic" ELSE "error")
+         ELSE IF c = "maxvalid" THEN "ok" ELSE "error"
+    [] f.what = "strlen" ->
+         IF c \in BigClasses THEN (IF "SignedStringLength" \in Defects /\ Bit63(c) THEN "panic" ELSE "error")
+         ELSE IF c = "maxvalid1" THEN "error" ELSE "ok"
+    [] f.what = "size" ->
+         IF c \in BigClasses THEN (IF "TruncatedSizeUpdate" \in Defects /\ Mod32Small(c) THEN "ok" ELSE "error")
+         ELSE IF c = "maxvalid1" THEN "error" ELSE "ok"
+
+HpIntCases == { [field |-> f, class |-> c, fill |-> fill] : f \in HpFields, c \in ClassSet, fill \in Fills }
+
+ASSUME \A x \in HpIntCases : HpIntApplicable(x.field, x.class) => HpIntImpl(x.field, x.class, x.fill) = HpIntExpect(x.field, x.class, x.fill)
+
+(* where a case runs: the bare decoder with and without a string limit, the server-side and the client-side framer *)
+HpTargets == {"decoder-1m", "decoder-unlimited", "server-framer", "client-framer"}
+
+ASSUME Emit => \A x \in HpIntCases : \A tg \in HpTargets : HpIntApplicable(x.field, x.class) =>
+  PrintT(<<"CASE", ToJson([kind |-> "hpint", field |-> x.field.name, n |-> x.field.n, base |-> x.field.base, what |-> x.field.what,
+                           class |-> x.class, val |-> SmallVal(x.field, x.class, x.fill), fill |-> x.fill, dyn |-> DynLen(x.fill),
+                           target |-> tg, expect |-> HpIntExpect(x.field, x.class, x.fill)])>>)
+
+(* ------------------------------------------------------------------ value fields of HTTP/2 frames at their type boundaries
+   WINDOW_UPDATE increment: 31 bits, the reserved bit is masked off, 0 is an error.
+   SETTINGS value: 32 bits; the parser refuses only INITIAL_WINDOW_SIZE (id 4) above 2^31-1. *)
+FV(t, id, vname, tg, expect) == [kind |-> "fval", t |-> t, id |-> id, vname |-> vname, target |-> tg, expect |-> expect]
+FrameValCases ==
+  { FV(WUPDATE, sid, v, tg, IF v \in {"zero", "i31"} THEN "error" ELSE "frame") :
+      sid \in {0, 1}, v \in {"zero", "one", "i31m1", "i31", "u32m1"}, tg \in {"server-framer", "client-framer"} }
+  \cup { FV(SETTINGS, id, v, tg, IF id = 4 /\ v \in {"i31", "u32m1"} THEN "error" ELSE "frame") :
+           id \in 1..6, v \in {"zero", "one", "i31m1", "i31", "u32m1"}, tg \in {"server-framer", "client-framer"} }
+ASSUME Emit => \A x \in FrameValCases : PrintT(<<"CASE", ToJson(x)>>)
 
 (* ------------------------------------------------------------------ the machine: one case, one call *)
 VARIABLES kind, frames, reps, n, pc, res
